@@ -13,8 +13,18 @@ DECIDED by this check (exact integer-lattice restriction, specs/C16 + specs/lib/
   * broadcasting case analysis: every array/stack combination of fixed and mobile gives the
     number of transformations and the fitted shape the specification derives; refusals are
     refusals;
-  * outlier / homolog variants (recorded executions): anchors well-formed, at least
-    min_anchors of them, reported fit not worse than W on exactly those anchors.
+  * outlier / homolog variants (spec-generated inputs and recorded executions): the anchor
+    path of superimpose_homologs (alignment-free fallback when no residue pair scores
+    positively, identity pairing for identical sequences, refusal of the fallback for unequal
+    backbone counts), anchors well-formed, at least min_anchors of them, all of them when
+    outlier removal is switched off, reported fit not worse than W on exactly those anchors;
+  * forms of the coordinates: every fit / affine / history case is handed over in one of 9
+    forms (float16/32/64 and int32/int64 ndarrays, non-contiguous and Fortran-ordered views,
+    AtomArray / AtomArrayStack), fixed structures also displaced by half ticks; the expected
+    values do not depend on the form;
+  * histories on one transformation object: all sequences of as_matrix() / apply() / edits of
+    returned arrays / edits of the attributes up to a bounded length - every accessor result is
+    a function of the current attributes only.
 NOT DECIDED: that no rigid placement has a lower RMSD than the returned one for noisy or
 non-congruent inputs (needs singular values); only W bounds the optimum from above.
 """
@@ -56,6 +66,7 @@ class Rec:
         self.idx = idx
         self.mm = []
         self.calls = 0
+        self.events = []
 
     def bad(self, call, expected, observed, **kw):
         m = {"kind": "case", "case_kind": self.case[0], "case": self.case[1], "variant": self.idx,
@@ -64,29 +75,56 @@ class Rec:
         self.mm.append(m)
 
 
-def shaped(models, depth, dt, as_atoms):
-    """Spec models (list of point lists) -> array (depth 0) or stack; optionally AtomArray(Stack)."""
+FORMS = ("f32", "f64", "f16", "i32", "i64", "atoms", "f32s", "f64F", "i64s")   # RigidFitOps!Forms
+INT_FORMS = ("i32", "i64", "i64s")
+_DT = {"f32": "float32", "f64": "float64", "f16": "float16", "i32": "int32", "i64": "int64",
+       "f32s": "float32", "f64F": "float64", "i64s": "int64"}
+
+
+def shaped(models, depth, form, half=0):
+    """Spec models (list of point lists) -> the coordinates in the FORM the case names
+    (RigidFitOps: forms of the coordinates): array (depth 0) or stack of `depth` models as an
+    ndarray of the given dtype / memory layout, or AtomArray / AtomArrayStack.  half = 1: every
+    coordinate displaced by 1/2 (Dom_Form: never with an integer form)."""
     np = _np()
     import biotite.structure as struc
 
-    if depth == 0:
-        c = np.array(models[0], dtype=dt)
-        if as_atoms:
-            a = struc.AtomArray(len(models[0]))
-            a.coord = c.astype(np.float32)
-            return a
-        return c
-    c = np.array(models, dtype=dt)
-    if as_atoms:
-        s = struc.AtomArrayStack(depth, len(models[0]))
-        s.coord = c.astype(np.float32)
-        return s
-    return c
+    vals = np.array(models[0] if depth == 0 else models, dtype=np.float64)
+    if half:
+        vals = vals + 0.5
+    n = vals.shape[-2]
+    if form == "atoms":
+        a = struc.AtomArray(n) if depth == 0 else struc.AtomArrayStack(depth, n)
+        a.coord = vals.astype(np.float32)
+        return a
+    dt = np.dtype(_DT[form])
+    if form in INT_FORMS and not np.array_equal(vals, np.round(vals)):
+        raise RuntimeError(f"Dom_Form violated by the case: {form} cannot hold {vals.tolist()}")
+    if form == "f32s":       # every second row of a larger buffer: non-contiguous view
+        buf = np.full(vals.shape[:-2] + (2 * n, 3), 777, dtype=dt)
+        v = buf[..., ::2, :]
+        v[...] = vals
+        return v
+    if form == "i64s":       # stride in the last axis
+        buf = np.full(vals.shape[:-1] + (6,), 777, dtype=dt)
+        v = buf[..., ::2]
+        v[...] = vals
+        return v
+    if form == "f64F":
+        return np.asfortranarray(vals.astype(dt))
+    return vals.astype(dt)
+
+
+def scribble(obj):
+    """The caller overwrites an array it got from an accessor, in place."""
+    np = _np()
+    arr = obj.coord if hasattr(obj, "coord") else obj
+    np.add(arr, 100, out=arr, casting="unsafe")
 
 
 def coords(x):
     np = _np()
-    return np.asarray(x.coord if hasattr(x, "coord") else x, dtype=float)
+    return np.array(x.coord if hasattr(x, "coord") else x, dtype=float)   # always a copy
 
 
 def transform_sanity(tr, mobile, fitted):
@@ -109,7 +147,7 @@ def transform_sanity(tr, mobile, fitted):
         probs.append("transformation.apply(mobile) differs from the fitted coordinates")
     if fit.shape != mob.shape:
         probs.append(f"fitted shape {fit.shape} differs from mobile shape {mob.shape}")
-    M4 = np.asarray(tr.as_matrix(), dtype=float)
+    M4 = np.array(tr.as_matrix(), dtype=float)     # a copy
     m3 = mob if mob.ndim == 3 else mob[np.newaxis]
     f3 = fit if fit.ndim == 3 else fit[np.newaxis]
     if M4.shape != (R.shape[0], 4, 4):
@@ -120,6 +158,18 @@ def transform_sanity(tr, mobile, fitted):
             out = (M4[k] @ h.T).T
             if not np.allclose(out[:, :3], f3[k], atol=1e-4) or not np.allclose(out[:, 3], 1.0):
                 probs.append(f"as_matrix()[{k}] applied to (x,1) differs from the fitted coordinates")
+    # no history on the object: the caller edits the arrays it got, the accessors answer as before
+    first = tr.as_matrix()
+    scribble(first)
+    scribble(tr.apply(mobile))
+    if not np.array_equal(coords(mobile), mob):
+        probs.append("apply() result shares memory with the input coordinates")
+    M4b = np.array(tr.as_matrix(), dtype=float)
+    if M4b.shape != M4.shape or not np.allclose(M4b, M4, atol=1e-6):
+        probs.append("as_matrix() differs after the caller edited a matrix returned earlier")
+    again2 = coords(tr.apply(mobile))
+    if again2.shape != fit.shape or not np.allclose(again2, fit, atol=1e-4):
+        probs.append("apply(mobile) differs after the caller edited an earlier result")
     return probs
 
 
@@ -128,12 +178,10 @@ def do_fit(R, pay, out):
     np = _np()
     import biotite.structure as struc
 
-    P, gi, ti, mask, noise, fd, md = pay
+    P, gi, ti, mask, noise, fd, md, ff, mf, hs = pay
     oc, nT, fdepth, per, F, M, maskidx, rk = out
-    dt = np.float32 if R.idx % 2 == 0 else np.float64
-    as_atoms = R.idx % 3 == 2
-    fixed = shaped(F, fd, dt, as_atoms)
-    mobile = shaped(M, md, dt, as_atoms)
+    fixed = shaped(F, fd, ff, half=hs)
+    mobile = shaped(M, md, mf)
     kw = {}
     if mask:
         kw["atom_mask"] = np.array(mask[0], dtype=bool)
@@ -169,7 +217,7 @@ def do_fit(R, pay, out):
         # fixed stack, single mobile ("Unspecified" accepted as model-wise): one fitted model per transformation
         R.bad("superimpose", f"{nT} fitted models", list(fit.shape))
         return
-    Fm = np.array(F, dtype=float)
+    Fm = np.array(F, dtype=float) + 0.5 * hs
     nf = Fm.shape[0]
     idx = np.array(maskidx, dtype=int)
     for k in range(nT):
@@ -192,19 +240,28 @@ def do_fit(R, pay, out):
 
 
 # --------------------------------------------------------------------------- S2: "affine"
-def do_affine(R, pay, out):
+def _transformation(cs, rots, ts, den, tform, single):
+    """AffineTransformation(cs / den, rots, ts / den) with constructor arrays of dtype tform."""
     np = _np()
     import biotite.structure as struc
 
-    cs, gis, ts, X, depth = pay
-    oc, res, mats, mods, rots = out
-    dt = np.float32 if R.idx % 2 == 0 else np.float64
-    single = len(cs) == 1 and R.idx % 2 == 0     # documented: shapes (3,) / (3,3) are expanded
-    c = np.array(cs[0] if single else cs, dtype=dt)
+    dt = np.dtype(_DT[tform])
+    if tform in INT_FORMS and den != 1:
+        raise RuntimeError("Dom violated by the case: integer constructor arrays with half ticks")
+    c = (np.array(cs[0] if single else cs, dtype=float) / den).astype(dt)
     rot = np.array(rots[0] if single else rots, dtype=dt)
-    t = np.array(ts[0] if single else ts, dtype=dt)
-    tr = struc.AffineTransformation(c, rot, t)
-    x = shaped(mods, depth, dt, R.idx % 3 == 2)
+    t = (np.array(ts[0] if single else ts, dtype=float) / den).astype(dt)
+    return struc.AffineTransformation(c, rot, t), dt
+
+
+def do_affine(R, pay, out):
+    np = _np()
+
+    cs, gis, ts, X, depth, form, den, tform = pay
+    oc, res, mats, mods, rots = out
+    single = len(cs) == 1 and R.idx % 2 == 0     # documented: shapes (3,) / (3,3) are expanded
+    tr, _dt = _transformation(cs, rots, ts, den, tform, single)
+    x = shaped(mods, depth, form)
     R.calls += 2
     try:
         got = coords(tr.apply(x))
@@ -214,16 +271,171 @@ def do_affine(R, pay, out):
     if real != oc:
         R.bad("AffineTransformation.apply", oc, real, detail=str(got)[:200])
     elif oc == "ok":
-        e = np.array(res[0] if depth == 0 else res, dtype=float)
+        e = np.array(res[0] if depth == 0 else res, dtype=float) / den
         if got.shape != e.shape or not np.allclose(got, e, atol=1e-4):
             R.bad("AffineTransformation.apply", e.tolist(), got.tolist())
-    M4 = np.asarray(tr.as_matrix(), dtype=float)
-    e4 = np.array(mats, dtype=float)
+    M4 = np.array(tr.as_matrix(), dtype=float)
+    e4 = np.array(mats, dtype=float) / den
     if M4.shape != e4.shape or not np.allclose(M4, e4, atol=1e-5):
         R.bad("AffineTransformation.as_matrix", e4.tolist(), M4.tolist())
 
 
-DO = {"fit": do_fit, "affine": do_affine}
+# --------------------------------------------------------------------------- S2: "hist"
+def do_hist(R, pay, out):
+    """A history on ONE transformation object; after every accessor the result is compared with
+    the spec's value for the current attributes."""
+    np = _np()
+
+    cs, gis, ts, X, depth, ops, form, den, tform = pay
+    steps, mods, rots = out
+    tr, dt = _transformation(cs, rots, ts, den, tform, False)
+    x = shaped(mods, depth, form)
+    x0 = coords(x)
+    last = None
+    for i, st in enumerate(steps):
+        op = st["op"]
+        if op == "mat":
+            R.calls += 1
+            last = tr.as_matrix()
+            got, e = np.array(last, dtype=float), np.array(st["res"], dtype=float) / den
+            if got.shape != e.shape or not np.allclose(got, e, atol=1e-5):
+                R.bad("AffineTransformation.as_matrix", e.tolist(), got.tolist(), step=i, history=ops[:i + 1])
+                return
+        elif op == "app":
+            R.calls += 1
+            last = tr.apply(x)
+            got = coords(last)
+            e = np.array(st["res"][0] if depth == 0 else st["res"], dtype=float) / den
+            if got.shape != e.shape or not np.allclose(got, e, atol=1e-4):
+                R.bad("AffineTransformation.apply", e.tolist(), got.tolist(), step=i, history=ops[:i + 1])
+                return
+        elif op == "scr":
+            if last is not None:
+                scribble(last)
+        elif op == "setR":       # attribute re-assigned
+            tr.rotation = np.array(st["R"], dtype=dt)
+        elif op == "sett":
+            tr.target_translation = (np.array(st["t"], dtype=float) / den).astype(dt)
+        elif op == "incc":       # attribute edited in place
+            tr.center_translation[0] = np.array(st["c"][0], dtype=float) / den
+        else:
+            raise RuntimeError(f"unknown history operation {op}")
+        if not np.array_equal(coords(x), x0):
+            R.bad("AffineTransformation.apply", "input coordinates unchanged", "changed", step=i, history=ops[:i + 1])
+            return
+
+
+# --------------------------------------------------------------------------- S2: "anch"
+_POS = None
+
+
+def _pos_pairs(sF, sM):
+    """Number of residue pairs with a positive score in the real default matrix (binding of PosScore)."""
+    global _POS
+    if _POS is None:
+        from biotite.sequence import ProteinSequence
+        from biotite.sequence.align.matrix import SubstitutionMatrix
+
+        m = SubstitutionMatrix.std_protein_matrix()
+        one = {r: ProteinSequence.convert_letter_3to1(r) for r in ("ALA", "GLY", "SER")}
+        _POS = {(a, b): m.get_score(one[a], one[b]) > 0 for a in one for b in one}
+    return sum(1 for a in sF for b in sM if _POS[(a, b)])
+
+
+def q_of(msd):
+    return int(math.floor(msd * KK + 1e-9))
+
+
+def run_outliers(F, M, min_anchors, maxit, form, extra=None):
+    """superimpose_without_outliers on lattice points -> recorded event."""
+    np = _np()
+    import biotite.structure as struc
+
+    kw = {"min_anchors": min_anchors}
+    if maxit != 10:
+        kw["max_iterations"] = maxit
+    fixed, mobile = shaped([F], 0, form), shaped([M], 0, form)
+    ev = {"op": "outliers", "F": F, "M": M, "min_anchors": min_anchors, "maxit": maxit, "form": form}
+    ev.update(extra or {})
+    try:
+        fitted, tr, anch = struc.superimpose_without_outliers(fixed, mobile, **kw)
+    except Exception as e:
+        if not _from_biotite(e):
+            raise
+        ev.update(anchors=[], rmsd2q=0, sane=False, problems=[repr(e)])
+        return ev
+    probs = transform_sanity(tr, mobile, fitted)
+    anch = [int(a) for a in anch]
+    msd = float(np.mean(np.sum((coords(fitted) - np.array(F, dtype=float))[anch] ** 2, axis=-1))) if anch else 0.0
+    ev.update(anchors=anch, rmsd2q=q_of(msd), sane=not probs, problems=probs)
+    return ev
+
+
+def run_homologs(sF, F, sM, M, min_anchors, maxit, extra=None):
+    """superimpose_homologs on lattice 'proteins' -> recorded event (oc "Rejected" = the documented
+    ValueError refusals)."""
+    np = _np()
+    import biotite.structure as struc
+
+    kw = {"min_anchors": min_anchors}
+    if maxit != 10:
+        kw["max_iterations"] = maxit
+    fx = _protein(sF, F)
+    mo = _protein(sM, M, chain="B")
+    ev = {"op": "homologs", "F": F, "M": M, "sF": sF, "sM": sM, "min_anchors": min_anchors, "maxit": maxit}
+    ev.update(extra or {})
+    try:
+        fitted, tr, fi, mi = struc.superimpose_homologs(fx, mo, **kw)
+    except ValueError as e:
+        ev.update(oc="Rejected", fa=[], ma=[], rmsd2q=0, sane=True, problems=[repr(e)])
+        return ev
+    except Exception as e:     # any other exception on well-formed input is a failure of the call
+        if not _from_biotite(e):
+            raise
+        ev.update(oc="ok", fa=[], ma=[], rmsd2q=0, sane=False, problems=[repr(e)])
+        return ev
+    probs = transform_sanity(tr, mo, fitted)
+    if any(fx.atom_name[i] != "CA" for i in fi) or any(mo.atom_name[i] != "CA" for i in mi):
+        probs.append("anchor is not a CA atom")
+    fa = [int(i) // 3 + 1 for i in fi]
+    mb = [int(i) // 3 + 1 for i in mi]
+    if len(fi) == len(mi) and len(fi):
+        dev = fitted.coord[mi].astype(float) - fx.coord[fi].astype(float)
+        msd = float(np.mean(np.sum(dev ** 2, axis=-1)))
+    else:
+        msd = 0.0
+    ev.update(oc="ok", fa=fa, ma=mb, rmsd2q=q_of(msd), sane=not probs, problems=probs)
+    return ev
+
+
+def do_anch(R, pay, out):
+    """Spec-generated inputs of the outlier / homolog variants.  Compared here: the anchor path
+    (refusal, pairing by position, no removal); the recorded event goes to Trace.tla, which
+    judges the fit on exactly the reported anchors."""
+    op, sF, sM, P, gi, ti, outl, minA, maxit, form = pay
+    path, F, M, npos, allanch, moved = out
+    R.calls += 1
+    if op == "outliers":
+        ev = run_outliers(F, M, minA, maxit, form, {"path": path, "moved": moved})
+        if ev["sane"] and allanch and ev["anchors"] != list(range(len(F))):
+            R.bad("superimpose_without_outliers", {"anchors": "all (max_iterations=1: no outlier removal)"}, ev["anchors"])
+    else:
+        if _pos_pairs(sF, sM) != npos:
+            raise RuntimeError(f"PosScore of the specification is not the sign of the default matrix: {sF} {sM} {npos}")
+        ev = run_homologs(sF, F, sM, M, minA, maxit, {"path": path, "moved": moved})
+        if path == "Rejected" and ev["oc"] != "Rejected":
+            R.bad("superimpose_homologs", "Rejected", "returned a result", anchors=[ev["fa"], ev["ma"]])
+        elif path in ("fallback", "identity"):
+            if ev["oc"] != "ok":
+                R.bad("superimpose_homologs", {"path": path}, "Rejected", detail=ev["problems"])
+            elif ev["sane"] and ev["fa"] != ev["ma"]:
+                R.bad("superimpose_homologs", {"path": path, "anchors": "paired by position"}, [ev["fa"], ev["ma"]])
+            elif ev["sane"] and allanch and ev["fa"] != list(range(1, len(F) + 1)):
+                R.bad("superimpose_homologs", {"path": path, "anchors": "all (max_iterations=1)"}, ev["fa"])
+    R.events.append(ev)
+
+
+DO = {"fit": do_fit, "affine": do_affine, "hist": do_hist, "anch": do_anch}
 
 
 def exec_group(item):
@@ -235,7 +447,7 @@ def exec_group(item):
     warnings.simplefilter("ignore")
     with open(item["file"]) as f:
         states = json.load(f)
-    mism, calls = [], 0
+    mism, calls, events = [], 0, []
     for k, (case, out) in enumerate(states):
         R = Rec(case, item["lo"] + k)
         progress({"case": case, "variant": R.idx})
@@ -247,7 +459,8 @@ def exec_group(item):
             R.bad("exception", "a result", repr(e))
         mism += R.mm
         calls += R.calls
-    return {"mismatch": mism, "calls": calls, "cases": len(states)}
+        events += R.events
+    return {"mismatch": mism, "calls": calls, "cases": len(states), "events": events}
 
 
 # --------------------------------------------------------------------------- S3 recording
@@ -358,12 +571,12 @@ def gen_trace(item):
             out.append(q)
         return out
 
-    def q_of(msd):
-        return int(math.floor(msd * KK + 1e-9))
+    RES = ["ALA", "GLY", "SER"]
+    BIG = [[6, -5, 4], [-4, 7, 5], [5, 5, -6]]
 
     for _ in range(item["length"]):
         k = rng.random()
-        dt = rng.choice([np.float32, np.float64])
+        form = rng.choice(FORMS)
         if k < 0.5:
             n = rng.randint(1, 12)
             P = _points(rng, n, rng.choice(["cloud", "cloud", "line", "plane", "point"]))
@@ -378,10 +591,10 @@ def gen_trace(item):
                 if not any(m):
                     m[0] = True
                 mask = [m]
-            as_atoms = rng.random() < 0.3
-            fixed, mobile = shaped(F, fd, dt, as_atoms), shaped(M, md, dt, as_atoms)
-            progress({"op": "fit", "F": F, "M": M, "fd": fd, "md": md, "mask": mask})
-            ev = {"op": "fit", "F": F, "M": M, "fd": fd, "md": md, "mask": mask}
+            fform = rng.choice(FORMS)
+            fixed, mobile = shaped(F, fd, fform), shaped(M, md, form)
+            progress({"op": "fit", "F": F, "M": M, "fd": fd, "md": md, "mask": mask, "form": [fform, form]})
+            ev = {"op": "fit", "F": F, "M": M, "fd": fd, "md": md, "mask": mask, "form": [fform, form]}
             try:
                 fitted, tr = struc.superimpose(fixed, mobile, **({"atom_mask": np.array(mask[0])} if mask else {}))
             except Exception:
@@ -401,7 +614,7 @@ def gen_trace(item):
                 probs.append("fitted dimensionality differs from mobile")
             ev.update(oc="ok", rmsd2q=qs, sane=not probs, problems=probs)
             events.append(ev)
-        elif k < 0.78:
+        elif k < 0.75:
             n = rng.randint(3, 12)
             P = _points(rng, n, "cloud")
             M = motion(P, rng.choice([0.0, 0.1]))
@@ -409,60 +622,41 @@ def gen_trace(item):
                 j = rng.randrange(n)
                 M[j] = [M[j][i] + rng.choice([-5, 4, 6]) for i in range(3)]
             ma = rng.choice([1, 3, 3, 5])
-            kw = {"min_anchors": ma}
-            if rng.random() < 0.3:
-                kw["max_iterations"] = rng.choice([1, 2, 10])
-            progress({"op": "outliers", "F": P, "M": M, "kw": kw})
-            fixed, mobile = np.array(P, dtype=dt), np.array(M, dtype=dt)
-            try:
-                fitted, tr, anch = struc.superimpose_without_outliers(fixed, mobile, **kw)
-            except Exception as e:
-                events.append({"op": "outliers", "F": P, "M": M, "min_anchors": ma, "anchors": [],
-                               "rmsd2q": 0, "sane": False, "problems": [repr(e)], "kw": kw})
-                continue
-            probs = transform_sanity(tr, mobile, fitted)
-            anch = [int(a) for a in anch]
-            msd = float(np.mean(np.sum((coords(fitted) - fixed.astype(float))[anch] ** 2, axis=-1))) if anch else 0.0
-            events.append({"op": "outliers", "F": P, "M": M, "min_anchors": ma, "anchors": anch,
-                           "rmsd2q": q_of(msd), "sane": not probs, "problems": probs, "kw": kw})
+            maxit = rng.choice([10, 10, 10, 1, 2])
+            if form == "atoms":
+                form = "f32"
+            progress({"op": "outliers", "F": P, "M": M, "min_anchors": ma, "maxit": maxit, "form": form})
+            events.append(run_outliers(P, M, ma, maxit, form))
         else:
             nres = rng.randint(3, 10)
-            seq = [rng.choice(["ALA", "GLY", "SER"]) for _ in range(nres)]
+            cls = rng.random()
+            if cls < 0.35:      # no residue pair scores positively: the alignment-free fallback
+                pool_f, pool_m = rng.choice([(["ALA", "SER"], ["GLY"]), (["GLY"], ["ALA", "SER"]), (["ALA"], ["GLY"])])
+            else:
+                pool_f = pool_m = RES
+            seq = [rng.choice(pool_f) for _ in range(nres)]
             ca = [[i * 2 + rng.randint(0, 1), rng.randint(-3, 3), rng.randint(-3, 3)] for i in range(nres)]
-            seq2, ca2 = seq[:], [c[:] for c in ca]
+            seq2 = seq[:] if pool_f is pool_m else [rng.choice(pool_m) for _ in range(nres)]
+            ca2 = [c[:] for c in ca]
             edit = rng.random()
-            if edit < 0.3 and nres > 3:        # deletion in the mobile chain
+            if edit < 0.2 and nres > 3:        # deletion in the mobile chain
                 j = rng.randrange(nres)
                 del seq2[j], ca2[j]
-            elif edit < 0.6:                   # insertion
+            elif edit < 0.4:                   # insertion
                 j = rng.randrange(nres + 1)
-                seq2.insert(j, rng.choice(["ALA", "GLY", "SER"]))
+                seq2.insert(j, rng.choice(pool_m))
                 ca2.insert(j, [rng.randint(-8, 8) for _ in range(3)])
-            elif edit < 0.8:                   # substitution
-                seq2[rng.randrange(nres)] = rng.choice(["ALA", "GLY", "SER"])
+            elif edit < 0.55:                  # substitution
+                seq2[rng.randrange(len(seq2))] = rng.choice(pool_m)
             ca2m = motion(ca2, rng.choice([0.0, 0.0, 0.15]))
-            g_all = None
-            fx = _protein(seq, ca)
-            mo = _protein(seq2, ca2m, chain="B")
+            for _o in range(rng.choice([0, 0, 1, 1, 2])):     # displaced residues (conformational outliers)
+                j = rng.randrange(len(ca2m))
+                d = rng.choice(BIG)
+                ca2m[j] = [ca2m[j][i] + d[i] for i in range(3)]
             ma = rng.choice([1, 3])
-            progress({"op": "homologs", "seq": seq, "seq2": seq2, "F": ca, "M": ca2m})
-            try:
-                fitted, tr, fi, mi = struc.superimpose_homologs(fx, mo, min_anchors=ma)
-            except ValueError:
-                continue    # documented refusals (too few anchors); nothing to judge
-            except Exception as e:     # any other exception on well-formed input is a failure of the call
-                events.append({"op": "homologs", "F": ca, "M": ca2m, "min_anchors": ma, "fa": [], "ma": [],
-                               "rmsd2q": 0, "sane": False, "problems": [repr(e)], "seq": seq, "seq2": seq2})
-                continue
-            probs = transform_sanity(tr, mo, fitted)
-            if any(fx.atom_name[i] != "CA" for i in fi) or any(mo.atom_name[i] != "CA" for i in mi):
-                probs.append("anchor is not a CA atom")
-            fa = [int(i) // 3 + 1 for i in fi]
-            mb = [int(i) // 3 + 1 for i in mi]
-            dev = fitted.coord[mi].astype(float) - fx.coord[fi].astype(float)
-            msd = float(np.mean(np.sum(dev ** 2, axis=-1))) if len(fi) else 0.0
-            events.append({"op": "homologs", "F": ca, "M": ca2m, "min_anchors": ma, "fa": fa, "ma": mb,
-                           "rmsd2q": q_of(msd), "sane": not probs, "problems": probs, "seq": seq, "seq2": seq2})
+            maxit = rng.choice([10, 10, 10, 1])
+            progress({"op": "homologs", "sF": seq, "sM": seq2, "F": ca, "M": ca2m, "min_anchors": ma, "maxit": maxit})
+            events.append(run_homologs(seq, ca, seq2, ca2m, ma, maxit))
     return {"events": events}
 
 
@@ -507,25 +701,66 @@ def run(ctx):
     done.sort(key=lambda s: json.dumps(s[0], sort_keys=True))
     kinds, ocs, ranks = {}, {}, {}
     zero = pos = whole = 0
+    mob_forms, fix_forms, half_whole, aff_forms, hist_forms, paths = {}, {}, {}, {}, {}, {}
+    hist_shapes = set()
     for c, o in done:
         kinds[c[0]] = kinds.get(c[0], 0) + 1
         if c[0] == "fit":
             ocs[o[0][0]] = ocs.get(o[0][0], 0) + 1
             ranks[o[0][7]] = ranks.get(o[0][7], 0) + 1
+            ff, mf, hs = c[1][7], c[1][8], c[1][9]
+            fix_forms[ff] = fix_forms.get(ff, 0) + 1
             for w in o[0][3]:
                 zero += w[0] == 0
                 pos += w[0] > 0
                 whole += bool(w[2])
-        else:
+                if w[0] == 0:
+                    mob_forms[mf] = mob_forms.get(mf, 0) + 1
+                if w[2] and hs:
+                    half_whole[mf] = half_whole.get(mf, 0) + 1
+        elif c[0] == "affine":
             ocs["affine:" + o[0][0]] = ocs.get("affine:" + o[0][0], 0) + 1
+            if o[0][0] == "ok":
+                aff_forms[(c[1][5], c[1][6])] = aff_forms.get((c[1][5], c[1][6]), 0) + 1
+        elif c[0] == "hist":
+            hist_forms[c[1][6]] = hist_forms.get(c[1][6], 0) + 1
+            ops = c[1][5]
+            # accessor, something in between, the same accessor again: the shapes that need a history
+            for i, a in enumerate(ops):
+                for j in range(i + 2, len(ops)):
+                    if a in ("mat", "app") and ops[j] == a:
+                        hist_shapes.update((a, x) for x in ops[i + 1:j])
+        else:
+            key = c[1][0] + ":" + o[0][0]
+            paths[key] = paths.get(key, 0) + 1
     ctx.cov.update(cases_per_kind=kinds, outcomes=ocs, masked_rank=ranks,
-                   witness_zero=zero, witness_positive=pos, whole_model_coincidence=whole)
+                   witness_zero=zero, witness_positive=pos, whole_model_coincidence=whole,
+                   mobile_forms_with_exact_fit=mob_forms, fixed_forms=fix_forms,
+                   mobile_forms_fitted_onto_half_tick_positions=half_whole,
+                   affine_form_den_pairs=len(aff_forms), history_forms=hist_forms, anchor_paths=paths)
     need = {"ok", "Rejected", "Unspecified", "affine:ok", "affine:Rejected"}
     if not need <= set(ocs) or set(ranks) != {0, 1, 2, 3} or not (zero and pos and whole):
         raise Vacuity(f"families miss an outcome / rank / witness kind: {ocs} {ranks} {zero} {pos} {whole}")
-    ctx.cov["rule"] = "a fit case is non-trivial when the rigid motion is not the identity or the witness bound is positive; an affine case when it has a non-identity rotation"
+    if set(kinds) != {"fit", "affine", "hist", "anch"}:
+        raise Vacuity(f"a family is empty: {kinds}")
+    if not quick or len(done) > 3000:     # (the tiny development config does not hold every combination)
+        allf = set(FORMS)
+        if set(mob_forms) != allf or set(fix_forms) != allf or set(half_whole) != allf or set(hist_forms) != allf \
+                or {f for f, _d in aff_forms} != allf or len(aff_forms) != 2 * len(FORMS):
+            raise Vacuity(f"a coordinate form is not exercised: {mob_forms} {fix_forms} {half_whole} {hist_forms} {sorted(aff_forms)}")
+        want = {(a, x) for a in ("mat", "app") for x in ("scr", "setR", "sett", "incc", "mat", "app")}
+        if not want <= hist_shapes:
+            raise Vacuity(f"history shapes missing: {sorted(want - hist_shapes)}")
+        wantp = {"homologs:fallback", "homologs:identity", "homologs:Rejected", "homologs:open", "outliers:outliers"}
+        if not wantp <= set(paths):
+            raise Vacuity(f"anchor paths missing: {paths}")
+    ctx.cov["rule"] = ("a fit case is non-trivial when the rigid motion is not the identity or the witness bound is positive; "
+                       "an affine case when it has a non-identity rotation; a history when an edit lies between two accessor calls; "
+                       "an anchor case when a residue is displaced or the path is not 'open'")
     ctx.nontrivial += sum(1 for c, o in done if (c[0] == "fit" and (c[1][1] != 1 or any(w[0] > 0 for w in o[0][3])))
-                          or (c[0] == "affine" and any(g != 1 for g in c[1][1])))
+                          or (c[0] == "affine" and any(g != 1 for g in c[1][1]))
+                          or (c[0] == "hist" and any(x not in ("mat", "app") for x in c[1][5][:-1]) and any(x in ("mat", "app") for x in c[1][5][:-1]))
+                          or (c[0] == "anch" and (c[1][6] or o[0][0] != "open")))
     d = tlc.scratch_dir("c16")
     per = 100
     items = []
@@ -543,14 +778,29 @@ def run(ctx):
     ctx.cov["s2_calls"] = calls
     ctx.sample({"s2_case": done[len(done) // 3][0], "expected": done[len(done) // 3][1][0][:4]})
     ctx.log(f"S2: {ncases} cases, {calls} calls compared with biotite")
+    # recorded executions of the spec-generated anchor cases: judged by Trace.tla together with S3
+    s2ev = [e for r in results for e in r.get("events", ())]
+    s2traces = helpers.chunked(s2ev, 12)
+    removed = {}
+    for e in s2ev:
+        k = e["op"] + ":" + e["path"]
+        got = e["anchors"] if e["op"] == "outliers" else e["fa"]
+        if e.get("oc", "ok") == "ok" and e["sane"] and len(got) < len(e["M"]) and e["moved"]:
+            removed[k] = removed.get(k, 0) + 1
+    ctx.cov["s2_anchor_events"] = len(s2ev)
+    ctx.cov["s2_anchor_removed_by_path"] = removed
+    if len(done) > 3000 and not all(removed.get(k) for k in ("outliers:outliers", "homologs:fallback", "homologs:identity")):
+        raise Vacuity(f"no spec-generated anchor case had an anchor removed on some path: {removed}")
     # ---- S3
     ntr = 40 if quick else 2500
     length = 10 if quick else 16
     seeds = [ctx.rng.randrange(1 << 30) for _ in range(ntr)]
     tres = helpers.run_pool(ctx, "harness.drivers.c16:gen_trace", [{"seed": s, "length": length} for s in seeds],
                             stage="S3", item_timeout=180)
-    traces = [r["events"] for r in tres if r and r.get("events")]
-    keep = ("op", "F", "M", "fd", "md", "mask", "oc", "rmsd2q", "sane", "min_anchors", "anchors", "fa", "ma")
+    s3traces = [r["events"] for r in tres if r and r.get("events")]
+    traces = s3traces + s2traces
+    keep = ("op", "F", "M", "fd", "md", "mask", "oc", "rmsd2q", "sane", "min_anchors", "anchors", "fa", "ma",
+            "sF", "sM", "maxit")
     nmm = 0
     for chunk in helpers.chunked(traces, 350):
         for m in helpers.tlc_validate(ctx, chunk, keep=keep, timeout=1500):
@@ -559,16 +809,21 @@ def run(ctx):
             ctx.mismatch({"stage": "S3", "kind": "event", "what": what, "flags": flags, "spec_outcome": bc,
                           "violated_bounds(model,W)": bounds, "event": chunk[tid - 1][l - 1]})
     nev = sum(len(t) for t in traces)
-    ctx.traces_validated += len(traces)
-    ctx.evaluations += nev
-    ops = {op: sum(1 for t in traces for e in t if e["op"] == op) for op in ("fit", "outliers", "homologs")}
-    ctx.cov.update(s3_traces=len(traces), s3_events=nev, s3_ops=ops,
-                   s3_fit_positive_rmsd=sum(1 for t in traces for e in t if e["op"] == "fit" and any(q > 3 for q in e["rmsd2q"])),
-                   s3_anchor_removed=sum(1 for t in traces for e in t if e["op"] == "outliers" and len(e["anchors"]) < len(e["F"])))
+    ctx.traces_validated += len(s3traces)      # (the S2 anchor cases are counted with S2)
+    ctx.evaluations += sum(len(t) for t in s3traces)
+    ops = {op: sum(1 for t in s3traces for e in t if e["op"] == op) for op in ("fit", "outliers", "homologs")}
+    ctx.cov.update(s3_traces=len(s3traces), s3_events=sum(len(t) for t in s3traces), s3_ops=ops,
+                   s3_fit_positive_rmsd=sum(1 for t in s3traces for e in t if e["op"] == "fit" and any(q > 3 for q in e["rmsd2q"])),
+                   s3_anchor_removed=sum(1 for t in s3traces for e in t if e["op"] == "outliers" and len(e["anchors"]) < len(e["F"])),
+                   s3_homolog_refused=sum(1 for t in s3traces for e in t if e["op"] == "homologs" and e["oc"] == "Rejected"),
+                   s3_homolog_anchor_removed=sum(1 for t in s3traces for e in t if e["op"] == "homologs" and e["oc"] == "ok"
+                                                 and len(e["fa"]) < min(len(e["F"]), len(e["M"]))),
+                   s3_forms=sorted({f for t in s3traces for e in t if "form" in e for f in ([e["form"]] if isinstance(e["form"], str) else e["form"])}),
+                   events_judged_by_trace_spec=nev)
     if not all(ops.values()):
         raise Vacuity(f"S3 recorded no event of some kind: {ops}")
-    ctx.nontrivial += sum(1 for t in traces if any(e["op"] != "fit" or any(q > 3 for q in e["rmsd2q"]) for e in t))
-    ctx.sample({"s3_event": {k: v for k, v in traces[0][0].items() if k in keep}})
+    ctx.nontrivial += sum(1 for t in s3traces if any(e["op"] != "fit" or any(q > 3 for q in e["rmsd2q"]) for e in t))
+    ctx.sample({"s3_event": {k: v for k, v in s3traces[0][0].items() if k in keep}})
 
     def corrupt(tr):
         for e in tr:
@@ -578,7 +833,11 @@ def run(ctx):
             if e["op"] == "outliers" and e["anchors"]:
                 e["anchors"][0] = -1
                 return True
+            if e["op"] == "homologs" and e["oc"] == "ok" and len(e["fa"]) > 1:
+                e["ma"] = e["ma"][:-1]
+                return True
         return False
 
-    helpers.binding_selftest(ctx, [[{k: e[k] for k in keep if k in e} for e in t] for t in traces], corrupt)
-    ctx.log(f"S3: {len(traces)} traces / {nev} events judged by TLC, {nmm} mismatches")
+    sel = s3traces[:2] + s2traces[:1]
+    helpers.binding_selftest(ctx, [[{k: e[k] for k in keep if k in e} for e in t] for t in sel], corrupt)
+    ctx.log(f"S3: {len(s3traces)} recorded traces + {len(s2ev)} spec-generated anchor executions = {nev} events judged by TLC, {nmm} mismatches")
